@@ -124,6 +124,9 @@ class Bounds:
       if gb is not None:
         return gb
       ds = ctx.rd.defs_at(at, e.id)
+      comp = _comprehension_binding(e)
+      if comp is not None:
+        return self.elem_lb(f, comp.iter, at, depth - 1)
       if not ds:
         return None
       bs = []
@@ -221,7 +224,8 @@ class Bounds:
       return False
     ctx = FuncCtx.of(st)
     for n in ctx.g.nodes:
-      if n.kind == 'test' and norm(n.expr) in ('len(x) != len(self._y)', 'len(self._y) != len(x)', 'len(x) != len(self.y)'):
+      txt = norm(ctx.rd.expand(n, n.expr, keep=('x',))[0]) if n.kind == 'test' else ''
+      if n.kind == 'test' and txt in ('len(x) != len(self._y)', 'len(self._y) != len(x)', 'len(x) != len(self.y)', 'len(self.y) != len(x)'):
         tb = [m for m, lab in ctx.g.succ[n] if lab == 'true']
         if tb and ctx.g.exit not in ctx.g.reachable(tb[0], cfgmod.no_exc):
           return True
@@ -242,10 +246,23 @@ class Bounds:
       pf = pathcond.PathFacts(p, None)
       if not pf.feasible:
         continue
-      if not pf.every_case_has(lambda e, t: (not t) and norm(e) in ('len(%s) < self._min_timepoints' % val,)):
+      if not pf.every_case_has(lambda e, t: 'len(%s) >= self._min_timepoints' % val in pathcond.rel_forms(e, t)):
         return None
     ok, v = au.const(cls.attrs.get('_min_timepoints'))
     return v if ok and isinstance(v, int) else None
+
+
+def _comprehension_binding(name_node):
+  """The comprehension clause binding this occurrence of a name (innermost), or None."""
+  cur, par = name_node, getattr(name_node, '_parent', None)
+  while par is not None and not isinstance(par, ast.stmt):
+    if isinstance(par, (ast.ListComp, ast.SetComp, ast.GeneratorExp, ast.DictComp)):
+      for gen in par.generators:
+        if cur is not gen and any(isinstance(x, ast.Name) and x.id == name_node.id for x in ast.walk(gen.target)) \
+            and isinstance(gen.target, ast.Name):
+          return gen
+    cur, par = par, getattr(par, '_parent', None)
+  return None
 
 
 def _stored_fields(cls):
